@@ -525,8 +525,8 @@ func (c *compiler) evalIdentifier(node *ast.Identifier) (interface{}, error) {
 		return f.Interface(), nil
 	}
 
-	if c.ctx.Has(node.Value) {
-		return c.ctx.Value(node.Value), nil
+	if name := lookupName(node); c.ctx.Has(name) {
+		return c.ctx.Value(name), nil
 	}
 
 	if node.Value == "nil" {
@@ -963,7 +963,11 @@ func (c *compiler) evalCallExpression(node *ast.CallExpression) (interface{}, er
 			for k, v := range octx.data {
 				c.ctx.Set(k, v)
 			}
-			c.ctx.Set(node.Function.String(), res[0].Interface())
+			chainKey := node.Function.String()
+			if root := calleeRoot(node.ChainCallee); root != nil {
+				chainKey = lookupName(root)
+			}
+			c.ctx.Set(chainKey, res[0].Interface())
 			vvs, err := c.evalExpression(node.ChainCallee)
 			if err != nil {
 				return nil, err
@@ -1223,9 +1227,9 @@ func (c *compiler) evalIndexCallee(rv reflect.Value, node *ast.IndexExpression) 
 	//If key doesn't contain "." this means we got person[0].Name[0]
 	//If key does contain "." then indexed field that needs to be accessed will be set in Node.left and Node.Callee
 	key := node.Left.String()
-	if root := calleeRootName(node.Callee); root != "" {
+	if root := calleeRoot(node.Callee); root != nil {
 		// bind the element under exactly the name the callee chain will look up
-		key = root
+		key = lookupName(root)
 	} else if strings.Contains(key, ".") {
 		ggg := strings.Split(key, ".")
 		callee := node.Callee.String()
@@ -1257,27 +1261,39 @@ func (c *compiler) evalIndexCallee(rv reflect.Value, node *ast.IndexExpression) 
 	return vvs, nil
 }
 
-// calleeRootName returns the name of the identifier at the root of a callee
-// chain (the placeholder the parser attached for the indexed element).
-func calleeRootName(e ast.Expression) string {
+// calleeRoot returns the identifier at the root of a callee chain (the
+// placeholder the parser attached for the indexed element / call result).
+func calleeRoot(e ast.Expression) *ast.Identifier {
 	switch t := e.(type) {
 	case *ast.Identifier:
 		if t == nil {
-			return ""
+			return nil
 		}
 		r := t
 		for r.Callee != nil {
 			r = r.Callee
 		}
-		return r.Value
+		return r
 	case *ast.IndexExpression:
-		return calleeRootName(t.Left)
+		return calleeRoot(t.Left)
 	case *ast.CallExpression:
 		if t.Callee != nil {
-			return calleeRootName(t.Callee)
+			return calleeRoot(t.Callee)
 		}
 	}
-	return ""
+	return nil
+}
+
+// lookupName is the context key an identifier is resolved under. The placeholder
+// identifiers the parser creates for "the element just indexed" / "the value just
+// returned" carry no source token; they live under a key that no template identifier
+// can spell, so that binding them never shadows a variable of the same name that
+// the rest of the path (a nested index, a method argument) still needs.
+func lookupName(id *ast.Identifier) string {
+	if id.Token.Type == "" && id.Callee == nil {
+		return "\x00placeholder:" + id.Value
+	}
+	return id.Value
 }
 
 func unsafeGetBytes(s string) []byte {
